@@ -24,6 +24,20 @@ Clauses of the design section -> contracts
  5 flags / callbacks follow the acknowledgements, start sent exactly on create ack ....... ack.step, lifecycle, commands.no-link
  6 SyncLogger: one put per sample, yielded once in order, ends at disconnect ............. synclogger.*
  LogVariable type ids / type byte for all type names ...................................... logvariable.types
+ extension round:
+ 1 names that are in no table ('', 'nodot', 'a.b.c', ...) refused, nothing sent ............. add_config.malformed-name
+ 1/3/4 variable fetched as another type than the table has (payload = fetched sizes) ........ fetch-as-other-type.*
+ 2 re-add to a Crazyflie whose table lacks a variable is refused (no stale acceptance) ....... readd.variable-gone-in-new-session
+ 3/5 Log.reset(): one reset request, host forgets all blocks, a new configuration is accepted / created / started / decoded also when the
+   16-block / 128-variable budget was used up before; (repeated) reset acknowledgement inside a session harmless ... reset.*
+ 4/5 packets reach the Log: exactly one handler for port 5, effects through THAT handler ..... log.listens-on-logging-port
+ 4 symbolic type per variable for three variables (all 512 triples) .......................... data.n3.every-type-triple
+ 5 ids after the id counter wrapped (255 add_config calls in a session) ..................... add_config.id-reuse-after-wrap   (FINDING, thorough tier)
+ 5 create acknowledgement processed before the append messages are sent (schedule) .......... create.ack-before-appends        (FINDING, thorough tier)
+ 6 with / for protocol (__enter__, __iter__, next, __exit__, also after link loss inside) ... synclogger.with-statement
+ 6 reader already blocked in the queue when a sample arrives / the link is lost (schedules) .. synclogger.reader-waiting.*
+ 6 two SyncLoggers share nothing ........................................................... synclogger.two-loggers
+ 6 every arrival/read schedule of up to four events ........................................ synclogger.session.*
 
 Bounds (also in each contract's `bounded=`): list LENGTHS are enumerated (0..26 for creation = everything add_config can accept;
 acceptance at payload 0, 1, 24..28 bytes and 26/27 one-byte, 13/14 two-byte, 6/7 four-byte variables, every type at the limit);
@@ -40,22 +54,36 @@ Assumptions (peer / environment):
 
 Not covered (stated, not claimed):
  * thread interleavings: SyncLogger's queue is filled by the incoming-packet thread and drained by the application thread; the
-   contracts run arrivals and reads as sequential schedules.  connect()/disconnect() racing with packet dispatch is not modelled.
+   contracts run arrivals and reads as sequential schedules, plus the explicit schedules "reader already blocked in Queue.get() when a
+   sample arrives / the link is lost" (synclogger.reader-waiting.*, the queue is a FIFO written in the contract whose get() runs the other
+   thread's action) and "create acknowledgement handled inside send_packet of the create message" (create.ack-before-appends).
+   Pre-emption between two arbitrary statements (e.g. link loss handled while disconnect() is between stop() and remove_callback():
+   the second remove_callback raises ValueError) is not modelled.
  * the legacy (protocol version < 4) create/append layout - the property speaks of the current protocol.
- * the TOC download and cache (C03, C11); Log.reset(); LogConfig objects mutated by the application after they were added.
- * symbolic-LENGTH variable lists and symbolic type per variable for lists longer than two (see Bounds).
+ * the TOC download and cache (C03, C11); LogConfig objects mutated by the application after they were added; start() called on a
+   configuration whose (re-)add was refused; LogVariable.__str__ (formatting); Toc.clear (never called by the library).
+ * symbolic-LENGTH variable lists and symbolic type per variable for lists longer than three (see Bounds).
 
 Observations that are not obligations here (reported to the maintainer): on a start error the started callback receives the Log object
 instead of the block (`started_cb.call(self, False)`), on a create error the added callback receives only `False`.
 
-FINDINGS on the unchanged tree (contracts kept; `create.memory-variable` is the listed known finding and stays in the quick tier, the other
-two have the option thorough_only=True so that `./vcheck C05` stays green until the maintainer decides; they fail with a native replay
-under `./vcheck C05 thorough`):
+FINDINGS on the unchanged tree (contracts kept; `create.memory-variable`, `readd.block-created-in-new-session` and `synclogger.reuse` are
+recorded in known_findings.json and stay in the quick tier; the two marked NEW have the option thorough_only=True so that `./vcheck C05` stays
+green until the maintainer decides; they fail with a native replay under `./vcheck C05 thorough`):
  * create.memory-variable/no-exception: LogConfig.add_memory(...) + add_config (accepted) + start() raises TypeError in
    _setup_log_elements (`pk.data.append(struct.pack('<B', ...))`: bytearray.append(bytes)); nothing is sent.
  * readd.block-created-in-new-session: a configuration that was added in an earlier session (added flag still True because the session
    ended without a delete acknowledgement, e.g. link loss) and is added again after a reconnect is NOT created on the new device:
    start() sends START_LOGGING for the new id instead of the creation messages (nothing ever resets `_added` at disconnect/reconnect).
+ * add_config.id-reuse-after-wrap (thorough_only, NEW): block ids are (counter + 1) % 255 and add_config never checks that the id is free, while
+   log_blocks only shrinks at a reset: the 256th add_config of a session (e.g. one SyncLogger per measurement: connect/disconnect 255 times)
+   hands out the id of the first - deleted but still registered - configuration; _find_block returns that stale registration, so the create
+   acknowledgement marks the OLD configuration added (START is sent with its period), the new one stays pending for ever, and data packets
+   are decoded with the OLD variable list (struct.error in the dispatcher thread when the sizes differ, otherwise values delivered to the old
+   configuration's callbacks; a SyncLogger on the new configuration blocks for ever).
+ * create.ack-before-appends (thorough_only, NEW, schedule-dependent): START_LOGGING is sent as soon as the acknowledgement of the CREATE
+   message is handled; when the incoming-packet thread handles it before LogConfig.create() has sent the APPEND messages (blocks of more than
+   9 variables) the device receives create, start, append: the block is started before its variable list is complete.
  * synclogger.reuse: SyncLogger never clears its queue (`self._queue.empty()` only tests): after disconnect + connect of the same
    object, samples (and the end marker) left from the earlier session are yielded in the new session before / instead of new samples.
 """
@@ -706,6 +734,7 @@ def _data(label, types_or_n, bound):
 _data('n0', [], 'configuration without variables')
 _data('n1.every-type', 1, 'one variable of each of the 8 types; value, timestamp, block id symbolic')
 _data('n2.every-type-pair', 2, 'two variables, all 64 type pairs; values, timestamp, block id symbolic')
+_data('n3.every-type-triple', 3, 'three variables, all 512 type triples (every combination of sizes in front of a variable of every type); values, timestamp, block id symbolic')
 _data('n10.all-types26', TYPE_NAMES + ['uint32_t', 'uint16_t'], '10 variables using every type, payload exactly 26 bytes')
 _data('n26.bytes', ['uint8_t', 'int8_t'] * 13, '26 one-byte variables, payload exactly 26 bytes')
 _data('n7.words-half', ['float', 'uint32_t', 'int32_t', 'float', 'uint32_t', 'int32_t', 'FP16'], '7 variables, payload exactly 26 bytes')
@@ -972,12 +1001,12 @@ def sync_connect(c, log, sl, confs):
         c.ensure('conf%d-running' % i, 'raised is None and conf%d.added is True and conf%d.started is True' % (i, i))
 
 
-def _sync_session(schedule, ending):
+def _sync_session(schedule, ending, **opts):
     @contract('C05', 'synclogger.session.%s.%s' % (schedule or 'idle', ending), SYNC_F,
               clause='SyncLogger adds and starts its configuration, yields each decoded sample exactly once, in arrival order, with the values of its '
                      'own packet, and stops at disconnect (explicit disconnect: stop and delete are sent; link loss: nothing is sent); packets after '
                      'the disconnect are not queued',
-              bounded='one configuration (float, uint16, int8); arrival(D)/read(N) schedule %r; all values symbolic' % schedule)
+              bounded='one configuration (float, uint16, int8); arrival(D)/read(N) schedule %r; all values symbolic' % schedule, **opts)
     def k(c):
         cf, log, disc, confs, sl, names = sync_setup(c)
         sync_connect(c, log, sl, confs)
@@ -1024,6 +1053,11 @@ def _sync_session(schedule, ending):
 
 
 for _s in ('', 'DN', 'DDDNNN', 'DNDDNN', 'DD'):
+    for _e in ('link-lost', 'disconnect'):
+        _sync_session(_s, _e)
+# together with the above: EVERY arrival/read schedule of up to four events (a read only when a sample is waiting; the blocked read is synclogger.blocks-when-empty
+# and synclogger.reader-waiting.*)
+for _s in ('D', 'DDD', 'DDN', 'DND', 'DDDD', 'DDDN', 'DDND', 'DDNN', 'DNDD', 'DNDN'):
     for _e in ('link-lost', 'disconnect'):
         _sync_session(_s, _e)
 
@@ -1101,3 +1135,497 @@ def sync_reuse(c):
     c.ensure('read-returns', 'raised is None')
     if c.get('raised') is None:
         sample_is(c, 'result', names, checks_new, 'new', conf='conf0', prefix='first-read-of-new-session-')
+
+
+# ---------------------------------------------------------------------------------------------------------------------
+# extension round: Log.reset histories, the packet route into the Log, fetch type != table type, id reuse, malformed names,
+# the with-statement / iterator protocol of SyncLogger, a reader blocked in the queue when the session ends
+# ---------------------------------------------------------------------------------------------------------------------
+
+RESET_F = LIFE_F + [LOG + ':Log.reset', LOG + ':LogConfig.unpack_log_data']
+RESET_SHAPES = {'one-block': [2], 'sixteen-blocks': [2] * 16, 'hundred-twenty-eight-variables': [26, 26, 26, 26, 24]}
+
+
+def run_block(c, log, conf, name):
+    """real add_config + start and the device's two acknowledgements: the block exists on the device and is running"""
+    c.invoke((log, 'add_config'), conf)
+    c.invoke((conf, 'start'))
+    deliver_settings(c, log, '6', name + '.id', '0')
+    deliver_settings(c, log, '3', name + '.id', '0')
+
+
+def reset_message_is(c):
+    if n_sent(c, 'cf.send_packet') != 1:
+        return 'False'
+    c.snapshot('pk', "sent('cf.send_packet')[0][1][0]")
+    return ("pk.port == 5 and pk.channel == 1 and bytes(pk.data) == bytes([5]) and sent('cf.send_packet')[0][2]['expected_reply'] == (5,) "
+            "and len(sent('cf.send_packet')[0][1]) == 1")
+
+
+def _reset(shape):
+    sizes = RESET_SHAPES[shape]
+
+    @contract('C05', 'reset.%s' % shape, RESET_F,
+              clause='Log.reset() asks the device once to drop all its blocks and the host forgets them as well: whatever was added and started before '
+                     '(also when the 16 blocks / 128 variables the device can hold were all in use), a valid configuration added after the reset is '
+                     'accepted, created with exactly its variables, started on the acknowledgement and its data decoded; the (possibly repeated) reset '
+                     'acknowledgement inside a session changes nothing',
+              bounded='blocks running before the reset: %s variables each (one-byte variables); reset acknowledged never / once / twice; new configuration '
+                      'of two variables (float, uint8), period and table indices symbolic' % sizes)
+    def k(c):
+        table = [('g0.v0', 'float'), ('g1.v1', 'uint8_t')] + [('x.y%d' % j, 'uint8_t') for j in range(26)]
+        cf, log = connected(c, table)
+        for i, nv in enumerate(sizes):
+            o = new_config(c, table[2:2 + nv] if nv > 2 else table[:2], name='old%d' % i)
+            run_block(c, log, o, 'old%d' % i)
+            c.ensure('old%d-running' % i, 'raised is None and old%d.added is True and old%d.started is True' % (i, i))
+        if len(sizes) > 1:
+            probe = new_config(c, table[:2], name='probe')
+            c.invoke((log, 'add_config'), probe)
+            c.reset_trace()
+            c.call((probe, 'start'))
+            c.ensure('device-budget-used-up-before-the-reset', "raised == 'AttributeError' and len(trace) == 0")
+        c.reset_trace()
+        c.call((log, 'reset'))
+        c.ensure('reset-no-exception', 'raised is None')
+        c.ensure('reset-requested-once', reset_message_is(c))
+        c.ensure('no-block-registered-after-reset', 'len(log.log_blocks) == 0')
+        for _k in range(c.choice('reset_acks', [0, 1, 2])):
+            c.reset_trace()
+            deliver_settings(c, log, '5', '0', '0')
+            c.ensure('reset-ack-%d-in-session-sends-nothing' % _k, "raised is None and len(sent('cf.send_packet')) == 0 and len(log.log_blocks) == 0")
+        variables = [('g0.v0', None), ('g1.v1', 'uint8_t')]
+        conf = new_config(c, variables, period=c.int('period', 1, 254))
+        watch(c, conf)
+        do_add_config(c, log, conf)
+        check_add_config(c, log, conf, variables, table, tag='after-reset-')
+        c.reset_trace()
+        c.call((conf, 'start'))
+        c.ensure('start-after-reset-no-exception', 'raised is None')
+        creation_matches(c, device_decode_creation(c, tag='after-reset-'), entries_expr(variables, table, {'g0.v0': 'ident_0', 'g1.v1': 'ident_1'}),
+                         tag='after-reset-')
+        c.reset_trace()
+        deliver_settings(c, log, '6', 'conf.id', '0')
+        c.ensure('create-ack-handled', "raised is None and len(sent('cf.send_packet')) == 1 and len(calls('cf.')) == 1")
+        c.ensure('start-message-after-create-ack', settings_message_is(c, 0, "pack('<BBB', 3, conf.id, period)", '(3, conf.id)'))
+        deliver_settings(c, log, '3', 'conf.id', '0')
+        expect_flags(c, 'running-after-reset', True, True, 1, 1)
+        body, checks = device_sample(c, ['uint8_t', 'float'], '')      # block order: the explicitly typed variable first, then the table-typed one
+        c.reset_trace()
+        deliver_data(c, log, 'conf.id', body)
+        c.ensure('data-no-exception', "raised is None and len(sent('conf_data_received')) == 1 and len(trace) == 1")
+        sample_is(c, "sent('conf_data_received')[0][1]", ['g1.v1', 'g0.v0'], checks, '', available=n_sent(c, 'conf_data_received') >= 1)
+    return k
+
+
+for _s in RESET_SHAPES:
+    _reset(_s)
+
+
+# --------------------------------------------------------------------------------------- SyncLogger: with / for protocol, blocked reader
+
+SYNC_WITH_F = SYNC_F + [SYN + ':SyncLogger.__enter__', SYN + ':SyncLogger.__exit__', SYN + ':SyncLogger.__iter__', SYN + ':SyncLogger.next']
+
+
+@contract('C05', 'synclogger.with-statement', SYNC_WITH_F,
+          clause='used as `with SyncLogger(...) as logger: for entry in logger:` - entering adds and starts the configuration and hands out the logger itself, '
+                 'which is its own iterator; next()/__next__() yield each decoded sample once, in order; leaving the block (normally or by an exception, '
+                 'which is not swallowed) stops and deletes the block and ends the iteration',
+          bounded='one configuration (float, uint16, int8); two samples read through next() and __next__(); exit with and without an exception in flight, and after the link was lost inside the block')
+def sync_with(c):
+    cf, log, disc, confs, sl, names = sync_setup(c)
+    c.reset_trace()
+    c.call((sl, '__enter__'))
+    c.ensure('enter-returns-the-logger', 'raised is None and is_same(result, sl)')
+    c.snapshot('msgs0', "sent('cf.send_packet')")
+    c.ensure('entered-creation-requested', 'len(msgs0) == 1 and msgs0[0][1][0].data[0] == 6 and len(log.log_blocks) == 1 and is_same(log.log_blocks[0], conf0)')
+    c.call((sl, 'is_connected'))
+    c.ensure('connected-after-enter', 'raised is None and result is True')
+    deliver_settings(c, log, '6', 'conf0.id', '0')
+    deliver_settings(c, log, '3', 'conf0.id', '0')
+    c.ensure('running', 'raised is None and conf0.added is True and conf0.started is True')
+    c.call((sl, '__iter__'))
+    c.ensure('is-its-own-iterator', 'raised is None and is_same(result, sl)')
+    arrived = []
+    for tag in ('s0', 's1'):
+        body, checks = device_sample(c, SYNC_TYPES, tag)
+        deliver_data(c, log, 'conf0.id', body)
+        c.ensure('packet-%s-handled' % tag, 'raised is None')
+        arrived.append((tag, checks))
+    for meth, (tag, checks) in zip(('next', '__next__'), arrived):
+        c.call((sl, meth))
+        c.ensure('%s-returns' % meth, 'raised is None')
+        sample_is(c, 'result', names, checks, tag, conf='conf0', prefix='%s-' % meth, available=c.get('raised') is None)
+    c.reset_trace()
+    leaving = c.choice('leaving', ['normally', 'by-exception', 'after-link-loss'])
+    if leaving == 'after-link-loss':          # the link is lost inside the with block: the logger disconnects itself, leaving the block is then silent
+        c.set(cf, 'link', None)
+        c.call((disc, 'call'), URI)
+        c.ensure('link-loss-handled-silently', "raised is None and len(calls('cf.')) == 0")
+        c.reset_trace()
+    if leaving == 'by-exception':
+        c.call((sl, '__exit__'), c.ext('exc_type'), c.ext('exc_value'), c.ext('exc_traceback'))
+    else:
+        c.call((sl, '__exit__'), None, None, None)
+    c.ensure('exit-no-exception-and-nothing-swallowed', 'raised is None and not result')
+    if leaving == 'after-link-loss':
+        c.ensure('nothing-sent-on-the-dead-link', "len(calls('cf.')) == 0")
+    else:
+        c.ensure('stop-then-delete-sent', "len(sent('cf.send_packet')) == 2 and len(calls('cf.')) == 2")
+        c.ensure('stop-message', settings_message_is(c, 0, "pack('<BB', 4, conf0.id)", '(4, conf0.id)'))
+        c.ensure('delete-message', settings_message_is(c, 1, "pack('<BB', 2, conf0.id)", '(2, conf0.id)'))
+    c.call((sl, 'is_connected'))
+    c.ensure('disconnected-after-exit', 'raised is None and result is False and len(disc.callbacks) == 0 and len(conf0.data_received_cb.callbacks) == 0')
+    for meth in ('next', '__next__'):
+        c.call((sl, meth))
+        c.ensure('%s-ends-after-exit' % meth, "raised == 'StopIteration'")
+
+
+def scheduled_queue(c, sl, while_blocked):
+    """explicit schedule: the SyncLogger's queue is replaced by a FIFO written here whose get(), when the reading thread would block,
+    lets the incoming-packet thread run `while_blocked()` (once); if the queue is still empty afterwards the reader blocks for ever"""
+    items = []
+    st = {'fired': False}
+
+    def put(_i, args, _k):
+        items.append(args[0])
+        return None
+
+    def get(_i, args, _k):
+        if not items and not st['fired']:
+            st['fired'] = True
+            while_blocked()
+        if not items:
+            return c.raiser('Deadlock', 'get on an empty queue that nobody fills')()
+        return items.pop(0)
+    q = c.ext('queue', returns={'put': put, 'get': get, 'empty': lambda *_a: not items, 'qsize': lambda *_a: len(items)})
+    c.set(sl, '_queue', q)
+    return items
+
+
+def _sync_blocked(event):
+    @contract('C05', 'synclogger.reader-waiting.%s' % event, SYNC_F,
+              clause='SyncLogger yields each decoded sample once, in order, ending at disconnect - also when the application thread is already waiting '
+                     'for the next sample: a sample that arrives then is yielded, and when the link is lost then the waiting reader wakes up and the '
+                     'iteration ends (it does not wait for ever)',
+              bounded='explicit schedule: the application thread is blocked in the queue (empty) when the incoming-packet thread handles %s; '
+                      'one configuration (float, uint16, int8)' % {'sample': 'one data packet', 'link-loss': 'the loss of the link',
+                                                                  'sample-then-link-loss': 'one data packet and then the loss of the link'}[event])
+    def k(c):
+        cf, log, disc, confs, sl, names = sync_setup(c)
+        got = {}
+
+        def other_thread():
+            if event in ('sample', 'sample-then-link-loss'):
+                body, got['checks'] = device_sample(c, SYNC_TYPES, 'w')
+                c.snapshot('logdata_w', 'bytes([conf0.id]) + %s' % body)
+                c.invoke((log, '_new_packet_cb'), c.new(STK + ':CRTPPacket', 0x5E, c.get('logdata_w')))
+            if event in ('link-loss', 'sample-then-link-loss'):
+                c.set(cf, 'link', None)
+                c.invoke((disc, 'call'), URI)
+        items = scheduled_queue(c, sl, other_thread)
+        sync_connect(c, log, sl, confs)
+        # an earlier sample, read before the reader goes to wait
+        body, checks0 = device_sample(c, SYNC_TYPES, 'e')
+        deliver_data(c, log, 'conf0.id', body)
+        c.call((sl, '__next__'))
+        c.ensure('earlier-sample-read', 'raised is None')
+        sample_is(c, 'result', names, checks0, 'e', conf='conf0', prefix='earlier-', available=c.get('raised') is None)
+        c.call((sl, '__next__'))           # the queue is empty: the reader waits; meanwhile the other thread handles the event
+        if event == 'link-loss':
+            c.ensure('waiting-reader-ends-at-link-loss', "raised == 'StopIteration'")
+        else:
+            c.ensure('waiting-reader-gets-the-sample', 'raised is None')
+            sample_is(c, 'result', names, got.get('checks', []), 'w', conf='conf0', prefix='waited-', available=c.get('raised') is None and 'checks' in got)
+        if event != 'sample':
+            c.call((sl, '__next__'))
+            c.ensure('iteration-over-after-link-loss', "raised == 'StopIteration' and sl.is_connected() is False")
+        else:
+            c.call((sl, '__next__'))
+            c.ensure('then-blocks-again-nothing-repeated', "raised == 'Deadlock'")
+    return k
+
+
+for _e in ('sample', 'link-loss', 'sample-then-link-loss'):
+    _sync_blocked(_e)
+
+
+# --------------------------------------------------------------------------------------- the route of packets into the Log
+
+@contract('C05', 'log.listens-on-logging-port', [LOG + ':Log.__init__', LOG + ':Log.refresh_toc', LOG + ':Log._send_reset_packet'] + ACK_F + DATA_F,
+          clause='every log data packet for the block is decoded and the flags follow the acknowledgements: the Log registers, when it is constructed, '
+                 'exactly one handler for the logging port (5), and packets handed to THAT handler (settings acknowledgements, log data) have these effects',
+          bounded='one block (float, uint8); packets delivered through the handler registered with cf.add_port_callback')
+def log_listens(c):
+    link = c.ext('link')
+    cf = c.ext('cf', attrs={'link': link}, returns={'platform.get_protocol_version': c.int('ver', 4, 255)})
+    c.let('cf', cf)
+    c.reset_trace()
+    c.call(c.cls(LOG + ':Log'), cf)
+    c.ensure('constructed', 'raised is None')
+    c.ensure('one-handler-for-port-5', "len(sent('cf.add_port_callback')) == 1 and sent('cf.add_port_callback')[0][1][0] == 5 and len(sent('cf.send_packet')) == 0")
+    if c.get('raised') is not None or n_sent(c, 'cf.add_port_callback') != 1:
+        return
+    log = c.get('result')
+    c.set(cf, 'log', log)
+    c.let('log', log)
+    handler = c.snapshot('handler', "sent('cf.add_port_callback')[0][1][1]")
+
+    def deliver(port_chan, expr):
+        c.snapshot('rx', expr)
+        c.call(handler, c.new(STK + ':CRTPPacket', port_chan, c.get('rx')))
+    c.reset_trace()
+    c.call((log, 'refresh_toc'), c.ext('refresh_done'), c.ext('toc_cache'))
+    c.ensure('session-starts-with-one-reset-request', "raised is None and " + reset_message_is(c))
+    deliver(0x5D, 'bytes([5, 0, 0])')
+    c.ensure('reset-ack-opens-the-table', 'raised is None and log.toc is not None')
+    if c.get('raised') is not None or c.getfield(log, 'toc') is None:
+        return
+    toc = c.getfield(log, 'toc')
+    table = [('g0.v0', 'float'), ('g1.v1', 'uint8_t')]
+    for i, (nm, ty) in enumerate(table):
+        c.invoke((toc, 'add_element'), toc_element(c, c.int('ident_%d' % i, i * 40000, i * 40000 + 25535), nm, ty))
+    conf = new_config(c, table, period=c.int('period', 1, 254))
+    watch(c, conf)
+    c.invoke((log, 'add_config'), conf)
+    c.invoke((conf, 'start'))
+    c.reset_trace()
+    deliver(0x5D, 'bytes([6, conf.id, 0])')
+    c.ensure('create-ack-through-the-handler', "raised is None and conf.added is True and len(sent('cf.send_packet')) == 1")
+    deliver(0x5D, 'bytes([3, conf.id, 0])')
+    c.ensure('start-ack-through-the-handler', 'raised is None and conf.started is True')
+    body, checks = device_sample(c, ['float', 'uint8_t'], '')
+    c.reset_trace()
+    deliver(0x5E, 'bytes([conf.id]) + ' + body)
+    c.ensure('data-through-the-handler', "raised is None and len(sent('conf_data_received')) == 1")
+    sample_is(c, "sent('conf_data_received')[0][1]", ['g0.v0', 'g1.v1'], checks, '', available=n_sent(c, 'conf_data_received') >= 1)
+
+
+# --------------------------------------------------------------------------------------- fetch type differs from the type in the table
+
+OTHER_TYPE_CASES = {
+    # label: (types in the table, types the user fetches them as)
+    '13-floats-as-FP16': (['float'] * 13, ['FP16'] * 13),                                         # 26 bytes as fetched (52 as stored)
+    '14-floats-as-FP16': (['float'] * 14, ['FP16'] * 14),                                         # 28 bytes
+    '7-bytes-as-words': (['uint8_t', 'int8_t'] * 3 + ['uint8_t'], ['float', 'uint32_t', 'int32_t'] * 2 + ['float']),     # 28 bytes as fetched (7 as stored)
+    'mixed-26': (['uint8_t', 'float', 'int16_t', 'uint32_t', 'FP16', 'int8_t', 'int32_t', 'uint16_t'],
+                 ['uint32_t', 'FP16', 'float', 'uint8_t', 'float', 'int32_t', 'int16_t', 'uint32_t', ][:8]),             # 4+2+4+1+4+4+2+4 = 25
+}
+
+
+def _other_type(label):
+    table_types, fetch_types = OTHER_TYPE_CASES[label]
+    n = len(table_types)
+    payload = size_of(fetch_types)
+
+    @contract('C05', 'fetch-as-other-type.%s' % label, ADD_F + CREATE_F + DATA_F,
+              clause='every fetch type: a variable may be fetched as another type than it has in the table; the payload that must fit 26 bytes is the one '
+                     'of the FETCHED types (%d bytes here), the creation messages carry the fetched type (low nibble of the type byte - the firmware takes '
+                     'the stored type of a table variable from its own table) and the table index, and data packets are decoded by the fetched types' % payload,
+              bounded='%d variables, table types %s fetched as %s; period, table indices, values symbolic' % (n, table_types, fetch_types))
+    def k(c):
+        names = names_for(n)
+        table = list(zip(names, table_types))
+        variables = list(zip(names, fetch_types))
+        cf, log = connected(c, table)
+        conf = new_config(c, variables, period=c.int('period'))
+        watch(c, conf)
+        do_add_config(c, log, conf)
+        c.let('fits', payload <= MAX_PAYLOAD)
+        c.ensure('accepted-iff-fetched-payload-and-period-ok', "iff(raised is None, fits and 0 < period0 < 255) and raised in (None, 'AttributeError')")
+        c.ensure('nothing-sent', "len(calls('cf.')) == 0 and len(calls('link')) == 0")
+        if c.get('raised') is not None:
+            c.ensure('rejected-not-registered', 'conf.valid is False and len(log.log_blocks) == 0')
+            return
+        c.ensure('registered', 'conf.valid is True and len(log.log_blocks) == 1 and is_same(log.log_blocks[0], conf)')
+        c.reset_trace()
+        c.call((conf, 'start'))
+        c.ensure('no-exception', 'raised is None')
+        nd = device_decode_creation(c)
+        c.snapshot('device_view', '(' + ''.join('(dev_%d[0] %% 16, dev_%d[1]), ' % (i, i) for i in range(nd)) + ')')
+        c.snapshot('expected_view', '(' + ''.join('(%d, ident_%d), ' % (TYPES[t][0], i) for i, t in enumerate(fetch_types)) + ')')
+        c.ensure('variables-enumerated-once-in-order-with-index-and-fetched-type', 'device_view == expected_view')
+        deliver_settings(c, log, '6', 'conf.id', '0')
+        deliver_settings(c, log, '3', 'conf.id', '0')
+        body, checks = device_sample(c, fetch_types, '')
+        c.reset_trace()
+        deliver_data(c, log, 'conf.id', body)
+        c.ensure('data-no-exception', "raised is None and len(sent('conf_data_received')) == 1")
+        sample_is(c, "sent('conf_data_received')[0][1]", names, checks, '', available=n_sent(c, 'conf_data_received') >= 1)
+    return k
+
+
+for _l in OTHER_TYPE_CASES:
+    _other_type(_l)
+
+
+# --------------------------------------------------------------------------------------- names that cannot be in any table
+
+@contract('C05', 'add_config.malformed-name', ADD_F,
+          clause='a configuration is accepted only if all its variables exist in the table: a name that is not of the form group.name exists in no table; '
+                 'the configuration is refused, not registered and nothing is sent',
+          bounded="names '', 'nodot', 'g0.v0.x', '.', 'g0.'; typed explicitly or by the table; beside one good variable")
+def add_config_malformed(c):
+    bad = c.choice('name', ['', 'nodot', 'g0.v0.x', '.', 'g0.'])
+    typed = c.choice('typing', ['explicit', 'from-table'])
+    cf, log = connected(c, [('g0.v0', 'float')])
+    conf = c.new(LOG + ':LogConfig', 'conf', 100)
+    c.let('conf', conf)
+    c.invoke((conf, 'add_variable'), 'g0.v0', 'float')
+    if typed == 'explicit':
+        c.invoke((conf, 'add_variable'), bad, 'uint8_t')
+    else:
+        c.invoke((conf, 'add_variable'), bad)
+    do_add_config(c, log, conf)
+    c.ensure('refused', "raised in ('KeyError', 'ValueError', 'AttributeError')")
+    c.ensure('nothing-sent', "len(calls('cf.')) == 0 and len(calls('link')) == 0")
+    c.ensure('not-registered', "len(log.log_blocks) == 0 and len(sent('note_block_added')) == 0")
+
+
+# --------------------------------------------------------------------------------------- block ids after the id counter has wrapped
+
+@contract('C05', 'add_config.id-reuse-after-wrap', LIFE_F + DATA_F, thorough_only=True,
+          clause='all add/start/stop/delete/re-add histories: the flags and callbacks of a block follow the acknowledgements for ITS id and its data packets '
+                 'are decoded by ITS variable list - also when the id counter has wrapped (255 add_config calls in one session, e.g. one SyncLogger per '
+                 'measurement) and an earlier, meanwhile deleted, configuration that is still registered holds the same id',
+          bounded='first configuration (float) created, started, stopped and deleted; 254 further real add_config calls; then a configuration (uint8, int16) '
+                  'that receives the id of the first one',
+          )          # FINDING on the unchanged tree (fails with a native replay under `./vcheck C05 thorough`), see the module docstring
+def id_reuse(c):
+    table = [('g0.v0', 'float'), ('g1.v1', 'uint8_t'), ('g2.v2', 'int16_t')]
+    cf, log = connected(c, table)
+    first = new_config(c, table[:1], name='first')
+    watch(c, first, 'first')
+    run_block(c, log, first, 'first')
+    c.invoke((first, 'stop'))
+    deliver_settings(c, log, '4', 'first.id', '0')
+    c.invoke((first, 'delete'))
+    deliver_settings(c, log, '2', 'first.id', '0')
+    c.ensure('first-block-deleted', 'raised is None and first.added is False and first.started is False')
+    for i in range(254):
+        c.invoke((log, 'add_config'), new_config(c, table[:1], name='filler'))
+    conf = new_config(c, table[1:], period=c.int('period', 1, 254))
+    watch(c, conf)
+    do_add_config(c, log, conf)
+    c.ensure('accepted', 'raised is None and conf.valid is True')
+    c.reset_trace()
+    c.call((conf, 'start'))
+    c.ensure('start-no-exception', 'raised is None')
+    creation_matches(c, device_decode_creation(c), entries_expr(table[1:], table, {'g1.v1': 'ident_1', 'g2.v2': 'ident_2'}))
+    c.reset_trace()
+    deliver_settings(c, log, '6', 'conf.id', '0')
+    c.ensure('create-ack-handled', "raised is None and len(sent('cf.send_packet')) == 1")
+    c.ensure('start-message-after-create-ack', settings_message_is(c, 0, "pack('<BBB', 3, conf.id, period)", '(3, conf.id)'))
+    deliver_settings(c, log, '3', 'conf.id', '0')
+    c.ensure('flags-follow-the-acknowledgements-of-its-id', 'raised is None and conf.added is True and conf.started is True')
+    c.ensure('deleted-block-untouched', "first.added is False and first.started is False and len(sent('first_added')) == 0 and len(sent('first_started')) == 0")
+    body, checks = device_sample(c, ['uint8_t', 'int16_t'], '')
+    c.reset_trace()
+    deliver_data(c, log, 'conf.id', body)
+    c.ensure('data-decoded-by-its-own-block', "raised is None and len(sent('conf_data_received')) == 1 and len(sent('first_data_received')) == 0")
+    sample_is(c, "sent('conf_data_received')[0][1]", ['g1.v1', 'g2.v2'], checks, '', available=n_sent(c, 'conf_data_received') >= 1)
+
+
+@contract('C05', 'synclogger.two-loggers', SYNC_F,
+          clause='each SyncLogger yields the samples of ITS configuration, once each and in arrival order, and ends at ITS disconnect: two loggers on one '
+                 'Crazyflie share nothing',
+          bounded='two SyncLogger objects with one configuration each (three variables); arrivals B, A, B; logger A disconnects first')
+def sync_two_loggers(c):
+    names = names_for(6)
+    table = list(zip(names, SYNC_TYPES * 2))
+    cf, log = connected(c, table)
+    disc = c.new('cflib.utils.callbacks:Caller')
+    c.set(cf, 'disconnected', disc)
+    c.let('disc', disc)
+    loggers = []
+    for i, nm in enumerate('AB'):
+        conf = new_config(c, table[3 * i:3 * i + 3], name='conf' + nm)
+        sl = c.new(SYN + ':SyncLogger', cf, conf)
+        c.let('sl' + nm, sl)
+        loggers.append(sl)
+    for nm, sl in zip('AB', loggers):
+        c.call((sl, 'connect'))
+        c.ensure('connect-%s' % nm, 'raised is None')
+        deliver_settings(c, log, '6', 'conf%s.id' % nm, '0')
+        deliver_settings(c, log, '3', 'conf%s.id' % nm, '0')
+        c.ensure('running-%s' % nm, 'raised is None and conf%s.added is True and conf%s.started is True' % (nm, nm))
+    c.ensure('distinct-blocks', 'confA.id != confB.id and len(log.log_blocks) == 2')
+    arrived = {'A': [], 'B': []}
+    for k, nm in enumerate('BAB'):
+        body, checks = device_sample(c, SYNC_TYPES, 's%d' % k)
+        deliver_data(c, log, 'conf%s.id' % nm, body)
+        c.ensure('packet-%d-handled' % k, 'raised is None')
+        arrived[nm].append(('s%d' % k, checks))
+    c.ensure('each-queue-holds-its-own-samples', 'slA._queue.qsize() == 1 and slB._queue.qsize() == 2')
+    c.call((loggers[0], '__next__'))
+    c.ensure('A-read-returns', 'raised is None')
+    sample_is(c, 'result', names[:3], arrived['A'][0][1], arrived['A'][0][0], conf='confA', prefix='A-read-', available=c.get('raised') is None)
+    c.call((loggers[0], 'disconnect'))
+    c.ensure('A-disconnected-B-still-listening', 'raised is None and slA.is_connected() is False and slB.is_connected() is True and '
+             'len(confB.data_received_cb.callbacks) == 1 and len(disc.callbacks) == 1')
+    c.call((loggers[0], '__next__'))
+    c.ensure('A-iteration-over', "raised == 'StopIteration'")
+    for j in range(2):
+        c.call((loggers[1], '__next__'))
+        c.ensure('B-read-%d-returns' % j, 'raised is None')
+        sample_is(c, 'result', names[3:], arrived['B'][j][1], arrived['B'][j][0], conf='confB', prefix='B-read-%d-' % j, available=c.get('raised') is None)
+    c.call((loggers[1], '__next__'))
+    c.ensure('B-has-nothing-more', "raised == 'Deadlock'")
+
+
+# --------------------------------------------------------------------------------------- the create acknowledgement overtakes the append messages
+
+@contract('C05', 'create.ack-before-appends', CREATE_F + ACK_F, thorough_only=True,
+          clause='block creation and start follow the acknowledgements whatever the timing: the block is started only when ALL its creation messages '
+                 '(create and appends) have been handed to the link, also when the acknowledgement of the create message is processed by the '
+                 'incoming-packet thread before LogConfig.create() has sent the append messages',
+          bounded='10 variables (create + one append message); explicit schedule: the create acknowledgement is dispatched from inside cf.send_packet of '
+                  'the create message (earliest possible schedule)',
+          )          # schedule-dependent FINDING on the unchanged tree, see the module docstring
+def create_ack_before_appends(c):
+    types = type_pattern(10)
+    names = names_for(10)
+    table = list(zip(names, types))
+    cf, log, conf = added_config(c, table, table, period=c.int('period', 1, 254))
+    st = {'acked': False}
+
+    def send(_i, args, _k):
+        if not st['acked']:
+            st['acked'] = True
+            # the device acknowledges the create message at once and the incoming-packet thread handles that before send_packet returns
+            c.snapshot('early_ack', 'bytes([6, conf.id, 0])')
+            c.invoke((log, '_new_packet_cb'), c.new(STK + ':CRTPPacket', 0x5D, c.get('early_ack')))
+        return None
+    c.set(cf, 'send_packet', c.ext('cf.send_packet', returns={'()': send}))
+    c.reset_trace()
+    c.call((conf, 'start'))
+    c.ensure('no-exception', 'raised is None')
+    c.snapshot('cmds', "tuple(e[1][0].data[0] for e in sent('cf.send_packet'))")
+    c.ensure('every-creation-message-sent-and-start-requested', 'sorted(cmds) == [3, 6, 7]')
+    c.ensure('started-only-after-the-last-creation-message', 'cmds == (6, 7, 3)')
+
+
+@contract('C05', 'readd.variable-gone-in-new-session', LIFE_F,
+          clause='a configuration is accepted iff all its variables exist in the table - the table of the CURRENT session: a configuration that was accepted, '
+                 'created and started in an earlier session is refused when it is added again to a Crazyflie whose table lacks one of its variables; '
+                 'nothing is sent, it is not registered, and its variable list is unchanged',
+          bounded='three variables (float, int16, FP16), typed explicitly / by the table / mixed; variable missing from the second table: first/second/third')
+def readd_variable_gone(c):
+    names = names_for(3)
+    full = list(zip(names, ['float', 'int16_t', 'FP16']))
+    typing = c.choice('typing', ['explicit', 'from-table', 'mixed-a'])
+    variables = [(nm, ty if e else None) for (nm, ty), e in zip(full, READD_TYPINGS[typing])]
+    cf, log = connected(c, full)
+    conf = new_config(c, variables)
+    run_block(c, log, conf, 'conf')
+    c.ensure('session1-running', 'raised is None and conf.valid is True and conf.added is True and conf.started is True')
+    variable_state(c, conf)
+    c.snapshot('vars1', 'vars_of_conf')
+    gone = c.choice('gone_in_second_session', [0, 1, 2])
+    new_session(c, log, [x for i, x in enumerate(full) if i != gone], tag='b')
+    do_add_config(c, log, conf)
+    c.ensure('refused-in-the-new-session', "raised == 'KeyError'")
+    c.ensure('nothing-sent', "len(calls('cf.')) == 0 and len(calls('link')) == 0")
+    c.ensure('not-registered', "conf.valid is False and len(log.log_blocks) == 0 and len(sent('note_block_added')) == 0")
+    variable_state(c, conf)
+    c.ensure('variable-list-unchanged', 'vars_of_conf == vars1')
